@@ -59,9 +59,9 @@ func vfPayloadFor(size int, zero bool, mk func([]byte) proto.Message) []byte {
 // TestVerifC19ServerSharp: the reference server accepts exactly the limit and
 // rejects one byte more with resource_exhausted, on the uncompressed size.
 func TestVerifC19ServerSharp(t *testing.T) {
-	rep := verifkit.Begin("C19", "server-sharp", "real reference server (h2c) with MessageReceiveLimit L in {64, 4096, 204800}; connect-go client (third-party, no limit) sends unary and client-stream messages of exactly L-1, L, L+1 serialized bytes x {Connect, gRPC, gRPC-Web} x 6 compressions x {all-zero, incompressible} padding; oracle: <= L accepted and echoed, L+1 resource_exhausted; distinct = (limit, protocol, compression, padding, delta, rpc)")
+	rep := verifkit.Begin("C19", "server-sharp", "real reference server (h2c) with MessageReceiveLimit L in {64, 4096, 204800, 1048576}; connect-go client (third-party, no limit) sends unary and client-stream messages (the latter after a small first message that does or does not configure an error response) of exactly L-1, L, L+1 serialized bytes x {Connect, gRPC, gRPC-Web} x 6 compressions x {all-zero, incompressible} padding; oracle: <= L accepted and echoed, L+1 resource_exhausted; distinct = (limit, protocol, compression, padding, delta, rpc)")
 	defer rep.Write()
-	for _, L := range []int{64, 4096, 200 * 1024} {
+	for _, L := range []int{64, 4096, 200 * 1024, 1 << 20} {
 		srv, err := vfStartServer(&conformancev1.ServerCompatRequest{Protocol: conformancev1.Protocol_PROTOCOL_CONNECT, HttpVersion: conformancev1.HTTPVersion_HTTP_VERSION_2, MessageReceiveLimit: uint32(L)}, true)
 		if err != nil {
 			rep.Inconcl("cannot start server: " + err.Error())
@@ -75,8 +75,8 @@ func TestVerifC19ServerSharp(t *testing.T) {
 			for _, comp := range verifkit.Encodings {
 				for _, zero := range []bool{true, false} {
 					for _, delta := range []int{-1, 0, 1} {
-						for _, rpc := range []string{"unary", "client-stream"} {
-							if rpc == "client-stream" && L > 5000 && !verifkit.Thorough() {
+						for _, rpc := range []string{"unary", "client-stream", "client-stream-errdef"} {
+							if rpc != "unary" && L > 5000 && !verifkit.Thorough() {
 								continue
 							}
 							var opts []connect.ClientOption
@@ -124,7 +124,13 @@ func TestVerifC19ServerSharp(t *testing.T) {
 								compressedLen = len(c)
 								stream := cl.ClientStream(context.Background())
 								stream.RequestHeader().Set("X-Test-Case-Name", name)
-								_ = stream.Send(&conformancev1.ClientStreamRequest{RequestData: []byte("small first message")})
+								first := &conformancev1.ClientStreamRequest{RequestData: []byte("small first message")}
+								if rpc == "client-stream-errdef" {
+									first.RequestData = []byte("1st") // (keeps the first message itself far below the smallest limit)
+									// the first message asks for an error response; a later message is the sized one
+									first.ResponseDefinition = &conformancev1.UnaryResponseDefinition{Response: &conformancev1.UnaryResponseDefinition_Error{Error: &conformancev1.Error{Code: conformancev1.Code_CODE_ABORTED, Message: proto.String("cfg")}}}
+								}
+								_ = stream.Send(first)
 								_ = stream.Send(&conformancev1.ClientStreamRequest{RequestData: d})
 								resp, err := stream.CloseAndReceive()
 								callErr = err
@@ -148,7 +154,9 @@ func TestVerifC19ServerSharp(t *testing.T) {
 								if verdict != "resource_exhausted" {
 									rep.Violation("sharp/server/over-limit-"+verdict, fmt.Sprintf("message of %d bytes (limit %d) over %s/%s: %s, want resource_exhausted", size, L, po.name, comp, verdict), w)
 								}
-							case verdict == "accepted":
+							case rpc == "client-stream-errdef" && verdict == "aborted":
+								rep.Count("within_limit_configured_error", 1) // in-limit stream: the configured error is the answer
+							case verdict == "accepted" && rpc != "client-stream-errdef":
 								rep.Count("within_limit_accepted", 1)
 								if !echoedOK {
 									rep.Violation("sharp/server/echo-wrong", "accepted but the request was not echoed with its full size", w)
